@@ -33,6 +33,7 @@ def run(ctx):
     rule_ans(ctx, F)
     rule_once(ctx, F)
     rule_tc(ctx, F)
+    rule_deadline(ctx, F)
 
 
 def _has_fact(facts, pred):
@@ -262,3 +263,33 @@ def rule_tc(ctx, F):
                         bad = True
     ctx.ob(R, b, "truncated datagram answer is never returned", ok_ret and not bad,
            "the datagram response is handed to the caller although its TC bit is set")
+
+
+# ---------------------------------------------------------------------------
+# multi_stream: every wait of a request is bounded by the time remaining
+# ---------------------------------------------------------------------------
+
+def rule_deadline(ctx, F):
+    """multi_stream::Request::get_response computes `remaining` from the
+    configured response timeout at the top of its state loop; every future it
+    awaits (new connection, connection reply, query response, retry back-off)
+    is wrapped in tokio::time::timeout(remaining, ..).  An await outside such
+    a wrapper can outlast the caller's deadline."""
+    R = "C15.deadline"
+    ctx.floor(R, 4)
+    bs = [b for p, b in F.bodies.items() if re.match(r"^net::client::multi_stream::Request::<Req>::get_response::\{closure#0\}$", p)]
+    if not ctx.anchor(R, "multi_stream::Request::get_response", len(bs) == 1):
+        return
+    b = bs[0]
+    n = 0
+    for bi, t in b.calls():
+        if not (t["fn"] or "").endswith("IntoFuture::into_future"):
+            continue
+        n += 1
+        a = deep_strip(b.term_of_operand(t["args"][0]))
+        bounded = a[0] == "call" and re.search(r"tokio::time::(timeout|timeout_at)$|time::timeout::(timeout|timeout_at)$", a[1] or "") is not None
+        what = (a[1].split("::")[-1] if a[0] == "call" and a[1] else show(a)[:40])
+        ctx.ob(R, b, "await#%d is bounded by the remaining time" % n, bounded,
+               "multi_stream::Request::get_response awaits %s without tokio::time::timeout(remaining, ..): the request "
+               "can outlast the configured response timeout" % what, b.where(bi))
+    ctx.call_sites += n
